@@ -145,6 +145,50 @@ func catalogue() []catCase {
 	add("upstream-no-opt", x1, []msgx.WDesc{{Kind: "ecs", Fwd: true}, {Kind: "fwdopt", Codes: []int{10}}}, "wwx", one(plain), qa(full, false), qa(nil, false))
 	add("upstream-fails", x1, cw, "wx", one(msgx.Template{Fail: true}), qa(full, true), qa(nil, false))
 	add("badvers", x1, cw, "wx", one(badvers), qa(full, false), qa(nil, false), qa(opt(512, true), true))
+	// plugins that run the chain on copies of the context: only the options of the branch that is served come back.
+	// prefer_ipv4 in front of a cookie forwarder; the reference (A) reply has no A record and cookie aaaa.., the AAAA
+	// reply cookie bbbb..: the client gets exactly one cookie, bbbb.. (the demo of seeded change C15_m2).
+	{
+		nodata := msgx.Template{Flags: 1 << 7, Opt: opt(1232, false, cookie("aaaaaaaaaaaaaaaa1111111111111111"))}
+		aaaa := msgx.Template{Flags: 1 << 7, Answer: []dns.RR{&dns.AAAA{Hdr: dns.RR_Header{Name: "", Rrtype: dns.TypeAAAA, Class: 1, Ttl: 300}, AAAA: msgx.IP6(9)}},
+			Opt: opt(1232, false, cookie("bbbbbbbbbbbbbbbb2222222222222222"), ecs4(0x0A000100, 24))}
+		withA := msgx.Template{Flags: 1 << 7, Answer: []dns.RR{arec(300, 0x0A000007)}, Opt: opt(1232, true, cookie("cccccccccccccccc3333333333333333"))}
+		// the scripted upstream picks by (sum(name) + qtype + id) mod 2
+		order := func(name string, id uint16, forA, forAAAA msgx.Template) [][]msgx.Template {
+			ts := make([]msgx.Template, 2)
+			ia := (hx.Sum([]byte(name)) + 1 + uint64(id)) % 2
+			ts[ia], ts[1-ia] = forA, forAAAA
+			return [][]msgx.Template{ts}
+		}
+		q6 := func(id uint16, o *dns.OPT) msgx.Query { return query(id, "a.test.", 28, false, o) }
+		dual := msgx.WDesc{Kind: "dual"}
+		add("prefer4-pass", x1, []msgx.WDesc{dual, {Kind: "fwdopt", Codes: []int{10}}}, "wwx", order("a.test.", 7, nodata, aaaa),
+			q6(7, full), q6(7, nil), query(7, "a.test.", 1, false, full))
+		add("prefer4-block", x1, []msgx.WDesc{dual, {Kind: "fwdopt", Codes: []int{10}}}, "wwx", order("a.test.", 7, withA, aaaa),
+			q6(7, full), q6(7, full), query(7, "a.test.", 1, false, full), q6(7, nil))
+		add("prefer4-ecs", x1, []msgx.WDesc{{Kind: "fwdopt", Codes: []int{10}}, dual, {Kind: "ecs", Fwd: true}}, "wwwx", order("a.test.", 7, nodata, aaaa), q6(7, full), q6(9, full))
+		add("prefer6", x1, []msgx.WDesc{{Kind: "dual", V6: true}, {Kind: "fwdopt", Codes: []int{10, 8}}}, "wwx", order("a.test.", 7, withA, nodata),
+			query(7, "a.test.", 1, false, full), query(7, "a.test.", 28, false, full))
+		add("cache-prefer4", x1, []msgx.WDesc{{Kind: "cache"}, dual, {Kind: "fwdopt", Codes: []int{10}}, {Kind: "cache"}}, "wwwwx", order("a.test.", 7, nodata, aaaa),
+			q6(7, full), q6(7, full), query(7, "a.test.", 1, true, full))
+		// fallback: primary fails / succeeds, secondary standing by; forwarders inside the branches and around the fallback
+		fb := func(standby bool) ([]msgx.XDesc, []msgx.WDesc, []msgx.TSeq) {
+			xs := []msgx.XDesc{{Kind: "forward", Up: 0}, {Kind: "forward", Up: 1}, {Kind: "fallback", Prim: 1, Sec: 2, Standby: standby}}
+			ws := []msgx.WDesc{{Kind: "fwdopt", Codes: []int{10}}, {Kind: "ecs", Fwd: true}, {Kind: "fwdopt", Codes: []int{10, 8}}}
+			ss := []msgx.TSeq{
+				{Name: 1, Rules: []msgx.TRule{{Kind: "wrap", Arg: 0}, {Kind: "exec", Arg: 0}}},
+				{Name: 2, Rules: []msgx.TRule{{Kind: "wrap", Arg: 1}, {Kind: "exec", Arg: 1}}},
+				{Name: 0, Rules: []msgx.TRule{{Kind: "wrap", Arg: 2}, {Kind: "exec", Arg: 2}}}}
+			return xs, ws, ss
+		}
+		for i, standby := range []bool{false, true} {
+			xs, ws, ss := fb(standby)
+			for j, prim := range []msgx.Template{answer, {Fail: true}, {Rcode: 2, Opt: opt(512, false, cookie("dddddddddddddddd4444444444444444"))}} {
+				out = append(out, catCase{fmt.Sprintf("fallback-%d-%d", i, j), &msgx.Case{Xs: xs, Ws: ws, Prog: ss,
+					Scripts: [][]msgx.Template{{prim}, {aaaa}}, Queries: []msgx.Query{qa(full, false), qa(nil, true), qa(full, true)}}})
+			}
+		}
+	}
 	// no upstream at all: REFUSED carries the OPT too
 	add("no-forward", nil, []msgx.WDesc{{Kind: "ecs", Fwd: true}}, "w", nil, qa(full, false), qa(nil, true))
 	return out
@@ -197,12 +241,24 @@ func main() {
 		op, arg, m := msgx.GenFun(hx.NewRNG(o.Seed, id))
 		w.Emit("helper", hx.Case{ID: id, Coq: msgx.RunFun(op, arg, m), Desc: map[string]any{"kind": "helper", "op": op, "arg": arg}, FKey: "helper"})
 	}
+	for i := 0; i < nf; i++ {
+		id := fmt.Sprintf("copy/%d", i)
+		if !o.Want(id) {
+			continue
+		}
+		w.Emit("copy", hx.Case{ID: id, Coq: msgx.RunCopy(hx.NewRNG(o.Seed, id)), Desc: map[string]any{"kind": "copy"}, FKey: "copy"})
+	}
 	n := o.Count(900, 15000)
 	for i := 0; i < n; i++ {
 		id := fmt.Sprintf("rnd/%d", i)
 		if !o.Want(id) {
 			continue
 		}
-		emit(w, o, id, "random", msgx.GenCaseC15(hx.NewRNG(o.Seed, id)))
+		r := hx.NewRNG(o.Seed, id)
+		if i%4 == 3 {
+			emit(w, o, id, "copying", msgx.GenCopyingCase(r))
+		} else {
+			emit(w, o, id, "random", msgx.GenCaseC15(r))
+		}
 	}
 }
